@@ -410,9 +410,9 @@ def icecream_task(K, theta, tier):
             [z3.And(dotz(r_, ax) >= target_lo, dotz(r_, ax) <= target_hi) for r_ in Wq])
         if K >= 3:
             d0 = dotz(Wq[0], Wq[1])
-            claims["facets equally spaced"] = zand(
-                [z3.And(dotz(Wq[i], Wq[(i + 1) % K]) - d0 <= tol, d0 - dotz(Wq[i], Wq[(i + 1) % K]) <= tol)
-                 for i in range(K)])
+            for i in range(1, K):   # one small query per adjacent pair (a single conjunction was `unknown` for K = 7)
+                claims[f"facets equally spaced ({i},{(i + 1) % K})"] = z3.And(
+                    dotz(Wq[i], Wq[(i + 1) % K]) - d0 <= tol, d0 - dotz(Wq[i], Wq[(i + 1) % K]) <= tol)
         claims["axis strictly inside"] = zand([dotz(r_, ax) > 0 for r_ in Wq])
         for name, cl in claims.items():
             mdl = ctx.prove(name, cl)
